@@ -24,7 +24,7 @@ func c11Abs(x math.Int) math.Int {
 // whose amounts add up to power*10^6; the staking history since the report is one of
 //   scenario 0: every backing delegation still holds at least its snapshot amount,
 //   scenario 1: backer 0 has undelegated part of the stake: the rest sits in an unbonding delegation (1-2 entries),
-//   scenario 2: backer 0 has redelegated everything to a third validator.
+//   scenario 2: backer 0 has redelegated all or part of the stake to another validator.
 func VerifC11_escrow_untouched()   { c11Escrow(0) }
 func VerifC11_escrow_unbonding()   { c11Escrow(1) }
 func VerifC11_escrow_redelegated() { c11Escrow(2) }
@@ -103,8 +103,15 @@ func c11Escrow(scenario int) {
 			sk.ledgerNotBonded = sk.ledgerNotBonded.Add(rest.Add(extra))
 			before[i] = a.Add(extra)
 		case i == 0 && scenario == 2:
+			// part (possibly nothing) still with the source validator, the rest redelegated
+			keptSrc := ndBigInt("keptAtSource")
+			ndAssume(!keptSrc.IsNegative())
+			ndAssume(keptSrc.LT(a))
+			if keptSrc.IsPositive() {
+				sk.dels = append(sk.dels, stakingtypes.Delegation{DelegatorAddress: dels[i].String(), ValidatorAddress: vaddrs[0].String(), Shares: math.LegacyNewDecFromInt(keptSrc)})
+			}
 			sk.reds = append(sk.reds, stakingtypes.Redelegation{DelegatorAddress: dels[i].String(), ValidatorSrcAddress: vaddrs[0].String(), ValidatorDstAddress: vaddrs[3].String()})
-			sk.dels = append(sk.dels, stakingtypes.Delegation{DelegatorAddress: dels[i].String(), ValidatorAddress: vaddrs[3].String(), Shares: math.LegacyNewDecFromInt(a.Add(extra))})
+			sk.dels = append(sk.dels, stakingtypes.Delegation{DelegatorAddress: dels[i].String(), ValidatorAddress: vaddrs[3].String(), Shares: math.LegacyNewDecFromInt(a.Sub(keptSrc).Add(extra))})
 			before[i] = a.Add(extra)
 		default:
 			sk.dels = append(sk.dels, stakingtypes.Delegation{DelegatorAddress: dels[i].String(), ValidatorAddress: vaddrs[i].String(), Shares: math.LegacyNewDecFromInt(a.Add(extra))})
